@@ -147,6 +147,11 @@ impl PeerLink {
                             }
                         }
                     } else {
+                        if func == 0x49 {
+                            if let Some(core) = crate::verif::kernel::current() {
+                                core.count("probe.link_status_request_from_endpoint", 1);
+                            }
+                        }
                         self.link_frames.push((t, f));
                         self.link_frame_orders.push(order);
                     }
